@@ -303,7 +303,7 @@ func call(m int, kind string, res string, list []rs.RS) (changed bool, err error
 			return true, cb.ClearRulesOfResource(res)
 		}
 	case rs.System:
-		var l []*system.Rule
+		l := []*system.Rule{} // an empty list is an empty list, not nil (ClearRules is the call that loads nil)
 		for _, r := range list {
 			l = append(l, rs.BuildSystem(r))
 		}
@@ -565,8 +565,13 @@ func (P) Exec(c *harness.Case) *harness.Outcome {
 			last = &lastCall{last.m, last.kind, last.res, nl, lerr}
 		case "again":
 			// a load that returned an error did not load anything: "identical reload" is about successful loads
-			if last == nil || (last.kind != "load" && last.kind != "loadres") || len(last.list) == 0 || last.err != nil {
+			// (empty lists: for the whole-set load of the system module only - the per-resource loads of the other modules
+			// take an empty list for "clear" and report "changed" every time)
+			if last == nil || (last.kind != "load" && last.kind != "loadres") || (len(last.list) == 0 && !(last.m == rs.System && last.kind == "load")) || last.err != nil {
 				continue
+			}
+			if len(last.list) == 0 {
+				o.Probe("empty_list_loaded_again")
 			}
 			nan := false
 			for _, r := range last.list {
